@@ -12,7 +12,8 @@ from .. import common as C
 MODULE = "Props.C06"
 THEOREMS = ["C06_accepts_iff_rust_match", "C06_diagnostics_independent", "C06_empty_accepts_everything",
             "C06_f3_repaired", "C06_guard_join", "C06_packing", "C06_coercion_is_view", "C06_locals_distinct",
-            "C06_frontend", "C06_nonvacuous"]
+            "C06_frontend", "C06_nonvacuous", "Runtime.C06_runtime_consults_like_a_match", "Runtime.C06_diagnostics_only_after_the_decision",
+            "Runtime.C06_ordered_call_consults_one_matcher", "Runtime.C06_trace_nonvacuous"]
 HARNESS = "matching"
 F3_ID = "F3"
 
@@ -1071,16 +1072,31 @@ def run(tier, seed):
         what = next(f.get("what", "") for f in C.known_findings()["known"] if f.get("property") == "C06" and f.get("id") == F3_ID)
         print(f"KNOWN-FINDING: property=C06 {what} ({len(known)} generated programs of this run show it; first: "
               f"{describe(cases[wk])} on {verdicts[wk][1].get('tuple')})")
+    # runtime half: which matcher functions the runtime consults for a call, and when it collects diagnostics
+    from ..trace_part import TracePart
+    tn, tpayload, tcov = TracePart("C06")(rng, tier, seed, [])
+    cov.update(tcov)
+    cov["obligations"] += 1
+    cov["evaluations"] += tn
+    if tpayload is not None:
+        path = C.write_replay("C06", seed, tpayload)
+        C.write_evidence("C06", tier, seed, cov, time.time() - t0, 1)
+        C.violation("C06", path)
+        return 1
+    cov["discharged"] += 1
     C.write_evidence("C06", tier, seed, cov, time.time() - t0, 0,
                      assumptions=["model/implementation agreement is established on the generated programs only",
                                   "F3 class (bare top-level `||` guard next to eq!/ne!) is excluded from the main theorem: known finding"])
     print(f"C06: {len(obligations)} theorems closed; {len(cases)} generated matching! programs ({tuples_total} argument tuples, "
-          f"unordered+ordered+rustc match) agree ({time.time()-t0:.1f}s)")
+          f"unordered+ordered+rustc match) and {tn} matcher-trace co-executions agree ({time.time()-t0:.1f}s)")
     return 0
 
 
 def replay(path):
     payload = json.load(open(path))
+    if payload.get("part") == "trace":
+        from ..trace_part import replay_trace
+        return replay_trace("C06", payload, path)
     case = payload.get("case")
     if case is None:
         print("replay file names an obligation, not an input:", payload.get("theorem_or_correspondence"))
